@@ -320,6 +320,9 @@ func tmsg(v any) lib.T {
 		if m == nil {
 			return typedNil(kPipeResult)
 		}
+		if m.Message == nil { // a failure result: no message on the wire
+			return lib.L(lib.N(kPipeResult), lib.S(m.Id), lib.L(), tPerr(m.Error))
+		}
 		return lib.L(lib.N(kPipeResult), lib.S(m.Id), tmsg(m.Message), tPerr(m.Error))
 	case *vivid.Pong:
 		if m == nil {
@@ -506,7 +509,7 @@ func valid(v any, hc bool) bool {
 	case *vivid.OnKilled:
 		return m != nil && validKRef(m.Ref)
 	case *vivid.PipeResult:
-		if m == nil || !valid(m.Message, hc) {
+		if m == nil || (m.Message != nil && !valid(m.Message, hc)) {
 			return false
 		}
 		if m.Error == nil {
@@ -945,6 +948,12 @@ func (g *G) value(k, i, depth int) any {
 		}
 		if !rnd && i-2 < 12 {
 			return &vivid.PipeResult{Id: "pipe-1", Message: &vivid.OnLaunch{}, Error: g.perr(i - 2)}
+		}
+		if !rnd && i-14 < 12 { // failure results: nil Message with every error shape
+			return &vivid.PipeResult{Id: "pipe-2", Error: g.perr(i - 14)}
+		}
+		if g.r.Chance(1, 5) {
+			return &vivid.PipeResult{Id: g.str(), Error: g.perr(-1)}
 		}
 		if g.r.Chance(1, 3) {
 			return &vivid.PipeResult{Id: g.str(), Message: g.anyMsg(depth), Error: g.perr(-1)}
@@ -1602,7 +1611,7 @@ func main() {
 	for k := 0; k < nKinds; k++ {
 		for i := 0; i < per; i++ {
 			idx := i
-			if i >= 24 {
+			if i >= 28 {
 				idx = -1
 			}
 			v := g.value(k, idx, 3)
@@ -1712,6 +1721,9 @@ func main() {
 	for i := 0; i < nh; i++ {
 		h.handshakeWait(g.str(), r.Bytes(r.Intn(12)), nil)
 	}
+
+	// --- histories on the pooled code paths: failed operations must not poison later ones
+	h.histories(g, thorough)
 
 	// --- the malformed stream, decoded in a child process
 	h.malformed(thorough)
